@@ -135,7 +135,48 @@ func summarize(o *props.Obs, withDump bool) proto.ObsSummary {
 	return s
 }
 
+// dfsRuns walks the complete schedule space of a case depth-first: every run is replayed from a
+// tape prefix; the widths recorded at each decision tell which alternatives are still unexplored.
+func dfsRuns(t *testing.T, p props.Property, c *props.Case, max int, keepLog bool) (obs []*props.Obs, complete bool) {
+	tape := []uint32{}
+	for len(obs) < max {
+		o := p.Run(t, c, props.Sched{UseTape: true, Tape: tape, Policy: "dfs"}, keepLog)
+		progress.Add(1)
+		obs = append(obs, o)
+		actual := append([]uint32{}, o.Res.Tape...)
+		w := o.Res.Widths
+		i := len(actual) - 1
+		if len(w) < len(actual) {
+			i = len(w) - 1
+		}
+		for ; i >= 0; i-- {
+			if int(actual[i])+1 < w[i] {
+				break
+			}
+		}
+		if i < 0 {
+			return obs, true
+		}
+		tape = append(actual[:i:i], actual[i]+1)
+	}
+	return obs, false
+}
+
 func runCase(t *testing.T, p props.Property, c *props.Case, scheds []props.Sched, keepLog bool) ([]*props.Obs, []props.Finding) {
+	if c.DFS > 0 && (len(scheds) == 0 || !scheds[0].UseTape) {
+		obs, complete := dfsRuns(t, p, c, c.DFS, keepLog)
+		if len(obs) > 0 {
+			if obs[0].Res.Probes == nil {
+				obs[0].Res.Probes = map[string]int{}
+			}
+			if complete {
+				obs[0].Res.Probes["dfs-schedule-space-walked-completely"]++
+			} else {
+				obs[0].Res.Probes["dfs-capped"]++
+			}
+		}
+		return obs, p.Judge(c, obs)
+	}
 	obs := make([]*props.Obs, 0, len(scheds))
 	for _, s := range scheds {
 		o := p.Run(t, c, s, keepLog)
